@@ -42,7 +42,8 @@ def classify(c):
         return "ok"
     if v.startswith("structure") or v.startswith("diverge") or v.startswith("post-differs") or v.startswith("panic"):
         return "violation"
-    # the hypothesis of `asm_refines` fails on the dumped translation results.  Two clauses describe the recovered
+    # the hypothesis of `asm_refines` fails on the dumped translation results.  (`reqFun` is reported only when a guard is
+    # DROPPED by the manual-edge loop; guards of successors are merged by OR since fed1e64.)  Two clauses describe the recovered
     # CFG itself (a concrete program whose CFG, read in the IL operational semantics, does not have the machine's
     # executions) and are reported as violations; the remaining clauses would mean the lifter/model tie is broken.
     if v.startswith("incoherent reqFun") or v.startswith("incoherent continuation"):
